@@ -7,7 +7,9 @@
 (* obj  : key -> [kind, name, lines]    lines : set of [m, t, r]           *)
 (*        m = "" for a top-level command of the object, else the variant   *)
 (*        of the sub-mode it lives in ("attributes", "general-attributes", *)
-(*        a certificate-map sequence number, ...); t = text with the       *)
+(*        a certificate-map sequence number, ...) or the sequence number  *)
+(*        of the crypto map entry a top-level `crypto map NAME SEQ ...`    *)
+(*        command belongs to; t = text with the                            *)
 (*        referenced names replaced by $; r = sequence of referenced keys  *)
 (* mode : [k, m] the sub-mode that is open, k = "" if none                 *)
 (***************************************************************************)
@@ -31,28 +33,33 @@ HasTopPrefix(k, kind) == k \in DOMAIN obj /\ \E ln \in obj[k].lines : ln.m = ""
 \* sub-command by the device (the `webvpn` ambiguity inside group-policy attributes)
 Homonym(kind) == mode.k # "" /\ kind = "webvpn" /\ obj[mode.k].kind = "gp" /\ mode.m = "attributes"
 
-(* a top-level command that adds one line to an object (creates the object) *)
+(* a top-level command that adds one line to an object (creates the object); m = "" except   *)
+(* for `crypto map NAME SEQ ...` (m = SEQ).  Settings of a crypto map entry that refer to    *)
+(* another object (match address, transform-set) and the crypto map of an interface are      *)
+(* single-valued: a new value replaces the old one.                                          *)
 TopLineG(k, kind, t, r) ==
   CASE Homonym(kind) -> "top-level command issued inside a sub-mode that has a homonymous sub-command"
     [] ~RefsExist(r) -> "command references an object that does not exist"
     [] OTHER -> ""
-TopLine(k, kind, name, t, r) == LET g == TopLineG(k, kind, t, r) IN
+SingleValued(kind, m, r) == r # <<>> /\ (m # "" \/ kind = "cmi")
+TopLine(k, kind, name, m, t, r) == LET g == TopLineG(k, kind, t, r) IN
   /\ err' = Latch(g)
   /\ obj' = (IF g # "" THEN obj
-             ELSE IF k \in DOMAIN obj THEN [obj EXCEPT ![k].lines = @ \cup {Line("", t, r)}]
-             ELSE Put(obj, k, [kind |-> kind, name |-> name, lines |-> {Line("", t, r)}]))
+             ELSE IF k \in DOMAIN obj
+             THEN [obj EXCEPT ![k].lines = {ln \in @ : ~(SingleValued(kind, m, r) /\ ln.m = m /\ ln.t = t)} \cup {Line(m, t, r)}]
+             ELSE Put(obj, k, [kind |-> kind, name |-> name, lines |-> {Line(m, t, r)}]))
   /\ mode' = NoMode
 
 (* no <top-level command> *)
-TopNoLineG(k, t, r) ==
-  CASE ~(k \in DOMAIN obj /\ Line("", t, r) \in obj[k].lines) -> "command to be removed does not exist"
-    [] obj[k].lines = {Line("", t, r)} /\ Referenced(k) -> "referenced object deleted"
+TopNoLineG(k, m, t, r) ==
+  CASE ~(k \in DOMAIN obj /\ Line(m, t, r) \in obj[k].lines) -> "command to be removed does not exist"
+    [] obj[k].lines = {Line(m, t, r)} /\ Referenced(k) -> "referenced object deleted"
     [] OTHER -> ""
-TopNoLine(k, t, r) == LET g == TopNoLineG(k, t, r) IN
+TopNoLine(k, m, t, r) == LET g == TopNoLineG(k, m, t, r) IN
   /\ err' = Latch(g)
   /\ obj' = (IF g # "" THEN obj
-             ELSE IF obj[k].lines = {Line("", t, r)} THEN Drop(obj, k)
-             ELSE [obj EXCEPT ![k].lines = @ \ {Line("", t, r)}])
+             ELSE IF obj[k].lines = {Line(m, t, r)} THEN Drop(obj, k)
+             ELSE [obj EXCEPT ![k].lines = @ \ {Line(m, t, r)}])
   /\ mode' = NoMode
 
 (* opening a sub-mode: the parent must have been defined, except where the opener creates it *)
